@@ -43,6 +43,89 @@ def through(c, idx):
     return None
 
 
+def closure_test(F, gfn, closure_op):
+    """What does the predicate closure passed to is_some_and test?  -> (kind, operand) with kind in
+    exact | negated | case-insensitive | loose | unknown; operand = ('lit', s) | ('capture', upvar index) | None"""
+    cdef = rules.closure_def_of_arg(gfn, closure_op)
+    cl = F.fn(cdef) if cdef else None
+    if cl is None:
+        return ("unknown", None, None)
+    calls = [q for q in cl.calls()]
+    if len(calls) != 1 or len(cl.blocks) != 2 or calls[0].dst["l"] != 0:
+        return ("unknown", None, cl)
+    q = calls[0]
+    if q.matches("core::cmp::PartialEq::eq"):
+        kind = "exact"
+    elif q.matches("core::cmp::PartialEq::ne"):
+        kind = "negated"
+    elif "eq_ignore_ascii_case" in q.callee():
+        kind = "case-insensitive"
+    elif any(x in q.callee() for x in ("starts_with", "ends_with", "contains")):
+        kind = "loose"
+    else:
+        return ("unknown", None, cl)
+    operand = None
+    for a in q.args:
+        lits = [x[1] for x in rules.literal_of(cl, a) if x[0] == "str"]
+        if lits:
+            operand = ("lit", lits[0])
+    if operand is None:
+        # a captured variable: closure upvar (field of _1)
+        for a in q.args:
+            l = op_local(a)
+            if l is None:
+                continue
+            for (o, fs) in rules.trace_paths(cl, l, transparent=rules.TRANSPARENT):
+                if o == ("arg", 1) and fs:
+                    operand = ("capture", fs[0])
+    return (kind, operand, cl)
+
+
+def bool_meaning(F, gfn, local, depth=0):
+    """Meaning of a bool local as an extension test: (kind, literal, path_local)."""
+    for d in rules.defs_of(gfn, local):
+        if d[0] != "call":
+            continue
+        c = d[4]
+        if c.matches("core::option::Option::is_some_and"):
+            src = rules.origin_calls(gfn, op_local(c.args[0]), transparent=set())
+            if len(src) == 1 and src[0].matches("std::path::Path::extension"):
+                kind, operand, cl = closure_test(F, gfn, c.args[1])
+                lit = None
+                if operand and operand[0] == "lit":
+                    lit = operand[1]
+                elif operand and operand[0] == "capture":
+                    # which value did the closure capture?
+                    cl_local = rules.place_base_chain(gfn, op_local(c.args[1]))
+                    for dd in rules.defs_of(gfn, cl_local):
+                        if dd[0] == "assign" and "agg" in dd[4] and dd[4]["agg"]["k"] == "closure":
+                            idx = int(operand[1]) if str(operand[1]).isdigit() else 0
+                            if idx < len(dd[4]["ops"]):
+                                cap = dd[4]["ops"][idx]
+                                tp = rules.trace_paths(gfn, op_local(cap), transparent=rules.TRANSPARENT) if op_local(cap) is not None else set()
+                                params = [o[1] for (o, fs) in tp if o[0] == "arg"]
+                                if len(params) == 1:
+                                    lit = ("param", params[0])
+                return (kind, lit, op_local(src[0].args[0]), src[0])
+        g = F.fn(c.callee()) if (c.t["func"].get("local") or c.t["func"].get("res_local")) else None
+        if g is not None and g.locals[0] == "bool" and depth < 2:
+            inner = bool_meaning(F, g, 0, depth + 1)
+            if inner is None:
+                # the helper's return value may be assigned through a temp
+                continue
+            kind, lit, path_local, ext_call = inner
+            if isinstance(lit, tuple) and lit[0] == "param":
+                a = c.args[lit[1] - 1]
+                ls = [x[1] for x in rules.literal_of(gfn, a) if x[0] == "str"]
+                lit = ls[0] if len(ls) == 1 else None
+            # the path argument of the helper as seen by the caller
+            tp = rules.trace_paths(g, path_local, transparent=rules.TRANSPARENT) if path_local is not None else set()
+            pidx = [o[1] for (o, fs) in tp if o[0] == "arg"]
+            caller_path_local = op_local(c.args[pidx[0] - 1]) if len(pidx) == 1 else None
+            return (kind, lit, caller_path_local, c)
+    return None
+
+
 def run(ctx, rep):
     F = ctx.facts("default", ["mscript-bin"])
     f = F.fn(ENTRY)
@@ -108,53 +191,34 @@ def run(ctx, rep):
         removes += [(gfn, c) for c in gfn.calls_to(REMOVE)]
     rep.floor("C20.remove_file-sites", len(removes), 1)
     for gfn, c in removes:
-        ext_calls = gfn.calls_to("std::path::Path::extension")
-        if not ext_calls:
-            rep.ob("C20.guard", "remove_file", "violated", "no Path::extension() test in the deleting function",
-                   c.span, fn=gfn.path)
+        # candidate guards: bool switches on the way whose meaning is an extension test
+        meanings = []
+        for bb, t_t, f_t, pol in rules.bool_switches(gfn, {l: True for l, ty in enumerate(gfn.locals) if ty == "bool"}):
+            dl = op_local(gfn.term(bb)["discr"])
+            m = bool_meaning(F, gfn, dl)
+            if m is not None:
+                meanings.append((bb, t_t, f_t, dl, m))
+        if not meanings:
+            rep.ob("C20.guard", "remove_file", "violated", "no extension test (Path::extension) guards the deletion", c.span, fn=gfn.path)
             continue
-        verdict, info = rules.guarded_by_bool(gfn, [c.bb], [e.dst["l"] for e in ext_calls], want=True, through_call=through)
-        rep.ob("C20.guard", "remove_file guarded by extension test (true edge)", verdict, str(info), c.span, fn=gfn.path)
-
-        # the predicate: is_some_and(closure) with closure == "mmm"
-        for e in ext_calls:
-            der = gfn.derived([e.dst["l"]], through_call=through)
-            users = [u for u in gfn.calls() if u.args and op_local(u.args[0]) == e.dst["l"]]
-            if len(users) != 1 or not users[0].matches("core::option::Option::is_some_and"):
-                rep.ob("C20.extension-literal", "shape", "undecided",
-                       "extension() result is not consumed by a single is_some_and(closure): extractor does not know this form",
-                       e.span, fn=gfn.path)
-                continue
-            u = users[0]
-            cdef = rules.closure_def_of_arg(gfn, u.args[1])
-            cl = F.fn(cdef) if cdef else None
-            if cl is None:
-                rep.ob("C20.extension-literal", "closure", "undecided", "predicate closure not found", u.span, fn=gfn.path)
-                continue
-            rep.touched(cl.path)
-            eqs = [q for q in cl.calls() if q.matches("core::cmp::PartialEq::eq")]
-            nes = [q for q in cl.calls() if q.matches("core::cmp::PartialEq::ne")]
-            others = [q for q in cl.calls() if not q.matches(("core::cmp::PartialEq::eq", "core::cmp::PartialEq::ne"))]
-            if nes and not eqs:
-                rep.ob("C20.extension-literal", "closure compares extension == \"mmm\"", "violated",
-                       "the predicate is an inequality test: files whose extension differs from the literal are deleted",
-                       nes[0].span, fn=cl.path)
-                continue
-            ok = False
-            detail = ""
-            if len(eqs) == 1 and not others and len(cl.blocks) == 2:
-                q = eqs[0]
-                lits = rules.literal_of(cl, q.args[1]) + rules.literal_of(cl, q.args[0])
-                strs = [x[1] for x in lits if x[0] == "str"]
-                ret_direct = q.dst["l"] == 0
-                lhs_from_param = ("arg", 2) in rules.origins(cl, op_local(q.args[0])) or ("arg", 2) in rules.origins(cl, op_local(q.args[1]))
-                ok = strs == ["mmm"] and ret_direct and lhs_from_param
-                detail = "literals=%s returns_eq_directly=%s compares_parameter=%s" % (strs, ret_direct, lhs_from_param)
-                rep.ob("C20.extension-literal", "closure compares extension == \"mmm\"", "ok" if ok else "violated", detail, q.span, fn=cl.path)
+        ext_calls = []
+        name_locals = []
+        for bb, t_t, f_t, dl, (kind, lit, path_local, ext_call) in meanings:
+            reach = gfn.reachable(0, removed_edges={(bb, t_t)})
+            guarded = c.bb not in reach
+            rep.ob("C20.guard", "remove_file guarded by extension test (true edge)", "ok" if guarded else "violated",
+                   "deletion reachable without the extension test being true" if not guarded else "", c.span, fn=gfn.path)
+            if kind == "exact" and lit == "mmm":
+                rep.ob("C20.extension-literal", "closure compares extension == \"mmm\"", "ok", "", ext_call.span, fn=gfn.path)
+            elif kind == "unknown":
+                rep.ob("C20.extension-literal", "closure shape", "undecided", "the extension predicate is not a single comparison", ext_call.span, fn=gfn.path)
             else:
-                rep.ob("C20.extension-literal", "closure shape", "undecided",
-                       "predicate closure is not a single `==` comparison (calls: %s)" % [mir.short(x.callee()) for x in cl.calls()],
-                       cl.span, fn=cl.path)
+                rep.ob("C20.extension-literal", "closure compares extension == \"mmm\"", "violated",
+                       "the extension test is `%s` against %r: files other than exactly *.mmm are deleted (or *.mmm files are kept)" % (kind, lit),
+                       ext_call.span, fn=gfn.path)
+            if path_local is not None:
+                name_locals.append(path_local)
+        ext_calls = [m[4][3] for m in meanings]
 
         # clause 3: same entry
         arg_calls = rules.origin_calls(gfn, op_local(c.args[0])) if op_local(c.args[0]) is not None else []
@@ -166,8 +230,8 @@ def run(ctx, rep):
             else:
                 okflow = False
         name_entries = set()
-        for e in ext_calls:
-            for a in rules.origin_calls(gfn, op_local(e.args[0])):
+        for nl in name_locals:
+            for a in rules.origin_calls(gfn, nl):
                 if a.matches("std::fs::DirEntry::file_name") or a.matches("std::fs::DirEntry::path"):
                     name_entries.add(rules.place_base_chain(gfn, op_local(a.args[0])))
                 else:
